@@ -126,7 +126,8 @@ def const_from_json(tag, p):
     if tag == "E": return ...
     if tag == "i": return int(p)
     if tag == "s": return "".join(chr(c) for c in p)
-    if tag in ("b", "f", "c"): return eval(p, {"inf": float("inf"), "nan": float("nan")})
+    if tag in ("b", "f", "c"):
+        return eval(p, {"inf": float("inf"), "nan": float("nan"), "infj": complex(0, float("inf")), "nanj": complex(0, float("nan"))})
     raise ValueError(tag)
 
 
